@@ -1409,6 +1409,7 @@ pub fn exec_op(env: &mut Env, op: &Op, bag: &mut Vec<Handle>, fr: &mut Frame) {
                 };
                 if let Some(t) = tag {
                     h.info[t as usize].ret_of = Some(rid);
+                    h.mon.items[t as usize].ret_tag = true;
                 }
                 h.rets.push(RetInfo { kind, body, tag, state: 0, sent: false });
                 h.live_handles += 1;
@@ -1896,6 +1897,9 @@ fn do_run(s: &mut Stakker, target_hm: i64, idle: bool) {
             h.chk(r2);
             sample_zombies(h, "after run()");
         }
+        if !h.dead && s.start_instant() != inst_hm(0) {
+            h.viol(&["C15"], "start-instant", "start_instant() changed".to_string());
+        }
         let snow = hm_of(s.now());
         if !h.dead && snow != h.mon.now {
             h.viol(
@@ -2070,20 +2074,35 @@ fn run_top(prog: &Prog) {
 }
 
 fn summarize(h: &mut Hx) {
+    // end-of-case obligations: report each of them (they decide different properties)
     if !h.dead {
-        let r = h.mon.final_check();
-        h.chk(r);
-    }
-    if !h.dead {
-        if let Some(i) = h.msgs.iter().position(|m| *m == 0) {
-            h.viol(&["C16"], "msg-never-dropped", format!("message m{} was never dropped", i));
-        }
+        let mut out: Vec<Viol> = Vec::new();
         for (i, r) in h.rets.iter().enumerate() {
             if r.kind == 0 && r.state == 0 {
-                let m = format!("handler of Ret r{} was never invoked", i);
-                h.viol(&["C05"], "ret-never-invoked", m);
+                out.push(Viol {
+                    props: vec!["C05"],
+                    rule: "ret-never-invoked",
+                    msg: format!("handler of Ret r{} was never invoked (neither Some nor None)", i),
+                });
                 break;
             }
+        }
+        out.extend(h.mon.final_check());
+        if let Some(i) = h.msgs.iter().position(|m| *m == 0) {
+            out.push(Viol {
+                props: vec!["C16"],
+                rule: "msg-never-dropped",
+                msg: format!("message m{} was never dropped", i),
+            });
+        }
+        for v in out {
+            if h.trace {
+                h.rep.trace.push(format!("!! VIOLATION [{}] {}", v.rule, v.msg));
+            }
+            h.rep.viol(&v.props, v.rule, v.msg);
+        }
+        if !h.rep.violations.is_empty() {
+            h.dead = true;
         }
     }
     let m = &h.mon;
@@ -2159,8 +2178,37 @@ fn summarize(h: &mut Hx) {
     rep.events = h.nev;
 }
 
+/// Run a hand-written program (regression scenarios)
+pub fn run_prog(prog: Prog, trace: bool, strict: bool) -> CaseReport {
+    let opts = crate::Opts { trace, strict, ..Default::default() };
+    let prog = Rc::new(prog);
+    let base = crate::alloc::live();
+    let mut rep = execute_prog(prog.clone(), &opts);
+    let mut leaked = crate::alloc::live() - base - rep.allocs();
+    if leaked != 0 {
+        // confirm by re-execution (lazily initialised process singletons allocate once)
+        let base2 = crate::alloc::live();
+        let rep2 = execute_prog(prog.clone(), &opts);
+        leaked = crate::alloc::live() - base2 - rep2.allocs();
+        drop(rep2);
+    }
+    drop(prog);
+    if leaked != 0 {
+        rep.viol(
+            &["C16"],
+            "alloc-balance",
+            format!("{} heap allocation(s) are still live after the Stakker and every reference were dropped", leaked),
+        );
+    }
+    rep
+}
+
 fn execute(bytes: &[u8], opts: &crate::Opts) -> CaseReport {
     let prog = Rc::new(super::decode(bytes, &opts.focus, opts.size));
+    execute_prog(prog, opts)
+}
+
+fn execute_prog(prog: Rc<Prog>, opts: &crate::Opts) -> CaseReport {
     let mut hxv = Box::new(Hx {
         mon: Monitor::new(),
         rep: CaseReport::default(),
